@@ -466,7 +466,7 @@ func init() {
 		if tier == "thorough" {
 			reps = 300
 		}
-		n, runs := 0, 0
+		n, runs, hangs := 0, 0, 0
 		for _, sc := range scs {
 			if len(sc.Progs) > 3 {
 				continue
@@ -483,7 +483,12 @@ func init() {
 						}
 					})
 				}
-				parallelBody(fs...)
+				if parallelBody(fs...) >= 1000 {
+					hangs++
+					if hangs > 20 {
+						return n, runs // something leaves the mutex locked; stop piling up stuck goroutines
+					}
+				}
 				runs++
 			}
 		}
